@@ -23,6 +23,7 @@ type schedEntry struct {
 	n     int
 	ewd   bool
 	fault bool
+	zend  bool // "Z": a (0, nil) read even when the data is exhausted (end of input is reported by a later Read)
 }
 
 func (r *schedReader) Read(p []byte) (int, error) {
@@ -37,6 +38,9 @@ func (r *schedReader) Read(p []byte) (int, error) {
 	if len(r.data) == 0 {
 		if e != nil && e.fault {
 			return 0, errInjected
+		}
+		if e != nil && e.zend {
+			return 0, nil
 		}
 		return 0, io.EOF
 	}
@@ -65,6 +69,10 @@ func parseSched(s string) []schedEntry {
 	for _, w := range strings.Fields(s) {
 		if w == "F" {
 			out = append(out, schedEntry{fault: true})
+			continue
+		}
+		if w == "Z" {
+			out = append(out, schedEntry{zend: true})
 			continue
 		}
 		ewd := strings.HasSuffix(w, "E")
